@@ -639,16 +639,16 @@ theorem youtubeRewrite_idempotent (puny : Str → Str) (t : HostnameTrieSet.T) (
     have hid := Ural.Props.C19.Youtube.normalize_youtube_idempotent puny t hT u n hn
     -- `n` is the canonical url of a record: it starts with `https://www.youtube.com/`
     have hcanon : ∃ tail, n = wwwPrefix ++ tail := by
-      unfold Youtube.normalize_youtube_url at hn
       cases hp : Youtube.parse_youtube_url puny t u true with
       | error e => exact absurd hp (Ural.Props.C19.Youtube.parse_youtube_url_total puny t u true e)
       | ok o =>
-        rw [hp] at hn
         cases o with
         | none =>
+          rw [Ural.Props.C19.Youtube.normalize_unparsed_fixed puny t u hp] at hn
           simp only [Except.ok.injEq] at hn
           exact absurd hn.symm hne
         | some r =>
+          rw [Ural.Props.C19.Youtube.normalize_of_parsed puny t u r hp] at hn
           simp only [Except.ok.injEq] at hn
           obtain ⟨tail, ht⟩ := recordUrl_www r
           exact ⟨tail, by rw [← hn, ht]⟩
@@ -893,12 +893,16 @@ theorem platformWith_youtube (puny : Str → Str) (t : HostnameTrieSet.T) (u : S
     (res : Except Youtube.Err (Option Youtube.Record))
     (hp : Youtube.parse_youtube_url puny t u true = res) :
     platformWith puny t u = youtubeResultUrl u res := by
-  unfold platformWith platformE youtubeRewrite Youtube.normalize_youtube_url
+  unfold platformWith platformE youtubeRewrite
   rw [hf]
-  simp only [hy, if_true, hp]
+  simp only [hy, if_true]
   cases res with
-  | error e => rfl
-  | ok o => cases o <;> rfl
+  | error e =>
+    exact absurd hp (Ural.Props.C19.Youtube.parse_youtube_url_total puny t u true e)
+  | ok o =>
+    cases o with
+    | none => rw [Ural.Props.C19.Youtube.normalize_unparsed_fixed puny t u hp]; rfl
+    | some r => rw [Ural.Props.C19.Youtube.normalize_of_parsed puny t u r hp]; rfl
 
 /-- KF-C04-4's own witness (youtube; the two-domain trie of C19's examples, and the fuel form of
 `infer_redirection` inside `parse_youtube_url`): an escaped letter of the video id — the url
